@@ -176,8 +176,10 @@ func (c *vC12) checkIncluded(b *vBlock, tamper func(*vRefBlob) bool) {
 		case !yes && !want:
 			if err != nil {
 				c.st.out("included:error")
+				c.sample("included/error", map[string]any{"block": b.Spec.String(), "operator": cs.Op, "at": cs.Detail, "included": fmt.Sprintf("(%v, %v)", got, err)})
 			} else {
 				c.st.out("included:false")
+				c.sample("included/false", map[string]any{"block": b.Spec.String(), "operator": cs.Op, "at": cs.Detail, "included": "(false, nil)"})
 			}
 		case yes && !want:
 			c.st.out("included:accepted-wrong")
